@@ -11,5 +11,8 @@ CloseT == Tick /\ Close
 AsyncCloseT(c) == Tick /\ AsyncClose(c)
 NewSubConnT(c) == Tick /\ NewSubConn(c)
 ChildUpdateT(c, s) == Tick /\ ChildUpdate(c, s)
-Next == SwitchToT \/ CloseT \/ (\E c \in Children : AsyncCloseT(c) \/ NewSubConnT(c) \/ \E s \in States : ChildUpdateT(c, s))
+NewSubConnBeginT(c) == Tick /\ NewSubConnBegin(c)
+NewSubConnEndT == Tick /\ NewSubConnEnd
+Next == SwitchToT \/ CloseT \/ NewSubConnEndT
+        \/ (\E c \in Children : AsyncCloseT(c) \/ NewSubConnT(c) \/ NewSubConnBeginT(c) \/ \E s \in States : ChildUpdateT(c, s))
 ====
